@@ -54,10 +54,64 @@ type SKNested struct {
 	K2  *int32
 }
 
+type skGrpIn struct{ K int64 }
+
+// SKGrp: the first sort key is a REQUIRED leaf of an OPTIONAL group (G.K):
+// it is null whenever the group is.
+type SKGrp struct {
+	ID int64
+	G  *skGrpIn
+	K2 *string
+}
+
+// SKList: the first sort key is a repeated column; the order is whatever
+// Schema.Comparator defines for it (no reference comparator of our own).
+type SKList struct {
+	ID int64
+	K  []int64
+	K2 string
+}
+
 type skType struct {
 	rt    *RT
 	keys  [][]reflect.Value // alphabets of K and K2 (first entry = null/zero where nullable)
 	extra func(v reflect.Value, i int)
+	// paths maps a key name to its field path when it is not a top-level field
+	paths map[string][]string
+	// comparatorOnly: no reference comparator; the order is checked against
+	// Schema.Comparator only (repeated keys)
+	comparatorOnly bool
+}
+
+var skNil = reflect.Value{} // "the group holding the key is nil"
+
+func skPath(paths map[string][]string, col string) []string {
+	if p, ok := paths[col]; ok {
+		return p
+	}
+	return []string{col}
+}
+
+// skSet stores a key value at its path, allocating the groups on the way.
+func skSet(row reflect.Value, path []string, val reflect.Value) {
+	if len(path) > 1 && !val.IsValid() {
+		return // group left nil
+	}
+	v := row
+	for i, name := range path {
+		f := v.FieldByName(name)
+		if i == len(path)-1 {
+			f.Set(val)
+			return
+		}
+		if f.Kind() == reflect.Pointer {
+			if f.IsNil() {
+				f.Set(reflect.New(f.Type().Elem()))
+			}
+			f = f.Elem()
+		}
+		v = f
+	}
 }
 
 func ptrTo[T any](v T) *T { return &v }
@@ -82,6 +136,10 @@ var skTypes = func() []skType {
 				tags := [][]string{nil, {"t"}, {"u", "v", "w"}, {"a", "b"}}
 				v.FieldByName("Tags").Set(reflect.ValueOf(tags[i%4]))
 			}},
+		{rt: mkRT[SKGrp]("SKGrp"), keys: [][]reflect.Value{{skNil, reflect.ValueOf(int64(-4)), reflect.ValueOf(int64(0)), reflect.ValueOf(int64(6))}, rv((*string)(nil), ptrTo(""), ptrTo("z"))},
+			paths: map[string][]string{"K": {"G", "K"}}},
+		{rt: mkRT[SKList]("SKList"), keys: [][]reflect.Value{rv([]int64(nil), []int64{1, 3}, []int64{1, 2}, []int64{1, 1}, []int64{0, 9, 9}), rv("", "x")},
+			comparatorOnly: true},
 		{rt: mkRT[SKNested]("SKNested"), keys: [][]reflect.Value{rv(int64(3), int64(1), int64(2), int64(-9)), rv((*int32)(nil), ptrTo(int32(1)), ptrTo(int32(-1)))},
 			extra: func(v reflect.Value, i int) {
 				opts := []*skInner{nil, {Val: nil}, {Val: ptrTo(int64(7))}, {Val: ptrTo(int64(-7))}}
@@ -113,14 +171,18 @@ func (s sortSpec) String() string {
 	return strings.Join(p, "+")
 }
 
-func (s sortSpec) columns() []parquet.SortingColumn {
+func (s sortSpec) columns(paths ...map[string][]string) []parquet.SortingColumn {
+	var pm map[string][]string
+	if len(paths) > 0 {
+		pm = paths[0]
+	}
 	var out []parquet.SortingColumn
 	for i, c := range s.cols {
 		var sc parquet.SortingColumn
 		if s.desc[i] {
-			sc = parquet.Descending(c)
+			sc = parquet.Descending(skPath(pm, c)...)
 		} else {
-			sc = parquet.Ascending(c)
+			sc = parquet.Ascending(skPath(pm, c)...)
 		}
 		if s.nullsFirst[i] {
 			sc = parquet.NullsFirst(sc)
@@ -147,7 +209,21 @@ var sortSpecs = func() []sortSpec {
 }()
 
 // keyOf extracts the sort key of a Go row: (isNull, comparable value).
+var skCurrentPaths map[string][]string // key paths of the type of the running execution
+
 func skKey(row reflect.Value, col string) (null bool, v reflect.Value) {
+	path := skPath(skCurrentPaths, col)
+	for len(path) > 1 {
+		g := row.FieldByName(path[0])
+		if g.Kind() == reflect.Pointer {
+			if g.IsNil() {
+				return true, g
+			}
+			g = g.Elem()
+		}
+		row, path = g, path[1:]
+	}
+	col = path[0]
 	f := row.FieldByName(col)
 	sf, _ := row.Type().FieldByName(col)
 	if f.Kind() == reflect.Pointer {
@@ -249,7 +325,9 @@ func (s sortSpec) keyString(a reflect.Value) string {
 	return sb.String()
 }
 
-var c10Containers = []string{"GenericBuffer", "RowBuffer", "Buffer", "SortingWriter", "SortingWriter+dedupe", "GenericBuffer->WriteRowGroup"}
+var c10Containers = []string{"GenericBuffer", "RowBuffer", "Buffer", "SortingWriter", "SortingWriter+dedupe", "GenericBuffer->WriteRowGroup",
+	// half of the rows, sort, read everything, the other half, sort again
+	"GenericBuffer(sort,read,write,sort)", "RowBuffer(sort,read,write,sort)"}
 
 func c10Run(x *engine.X) {
 	root := x.Choose(len(skTypes)*len(sortSpecs)*len(c10Containers), "type*spec*container")
@@ -257,6 +335,7 @@ func c10Run(x *engine.X) {
 	spec := sortSpecs[(root/len(c10Containers))%len(sortSpecs)]
 	container := c10Containers[root%len(c10Containers)]
 	rt := st.rt
+	skCurrentPaths = st.paths
 	x.Descf("type=%s sort=%s container=%s", rt.Name, spec, container)
 
 	// row kinds = product of the key alphabets
@@ -265,8 +344,8 @@ func c10Run(x *engine.X) {
 	mkRow := func(id int, kind int) any {
 		v := reflect.New(rt.Type).Elem()
 		v.FieldByName("ID").SetInt(int64(id))
-		v.FieldByName("K").Set(st.keys[0][kind%nk])
-		v.FieldByName("K2").Set(st.keys[1][kind/nk])
+		skSet(v, skPath(st.paths, "K"), st.keys[0][kind%nk])
+		skSet(v, skPath(st.paths, "K2"), st.keys[1][kind/nk])
 		if st.extra != nil {
 			st.extra(v, id+kind)
 		}
@@ -351,15 +430,28 @@ func c10Run(x *engine.X) {
 	}
 	shape := fmt.Sprintf("type=%s;sort=%s;container=%s", rt.Name, spec, container)
 
-	sorting := parquet.SortingRowGroupConfig(parquet.SortingColumns(spec.columns()...))
+	sorting := parquet.SortingRowGroupConfig(parquet.SortingColumns(spec.columns(st.paths)...))
 	var got []any
 	dedupe := false
 	switch container {
-	case "GenericBuffer", "RowBuffer", "Buffer", "GenericBuffer->WriteRowGroup":
+	case "GenericBuffer", "RowBuffer", "Buffer", "GenericBuffer->WriteRowGroup", "GenericBuffer(sort,read,write,sort)", "RowBuffer(sort,read,write,sort)":
 		var rg parquet.RowGroup
 		var si sort.Interface
 		var err error
 		switch container {
+		case "GenericBuffer(sort,read,write,sort)", "RowBuffer(sort,read,write,sort)":
+			half := n / 2
+			mk := rt.GenericBuffer
+			if container == "RowBuffer(sort,read,write,sort)" {
+				mk = rt.RowBuffer
+			}
+			rg, si, err = mk(rows[:half], nil, sorting)
+			if err == nil {
+				sort.Sort(si)
+				if _, err = readAllRows(rg); err == nil {
+					err = rt.AppendTo(rg, rows[half:])
+				}
+			}
 		case "GenericBuffer", "GenericBuffer->WriteRowGroup":
 			rg, si, err = rt.GenericBuffer(rows, cuts, sorting)
 		case "RowBuffer":
@@ -416,7 +508,7 @@ func c10Run(x *engine.X) {
 				got = append(got, rt.Deref(p))
 			}
 			// the order must agree with Schema.Comparator on adjacent rows
-			cmp := schema.Comparator(spec.columns()...)
+			cmp := schema.Comparator(spec.columns(st.paths)...)
 			for i := 1; i < len(prs); i++ {
 				if cmp(prs[i-1], prs[i]) > 0 {
 					x.Failf("comparator-disagrees", shape, "Schema.Comparator says row %d > row %d of the sorted buffer:\n  %v\n  %v", i-1, i, prs[i-1], prs[i])
@@ -425,6 +517,9 @@ func c10Run(x *engine.X) {
 			}
 		}
 	case "SortingWriter", "SortingWriter+dedupe":
+		if st.comparatorOnly && container == "SortingWriter+dedupe" {
+			return // key equality of repeated keys is not defined by the statement
+		}
 		dedupe = container == "SortingWriter+dedupe"
 		runs := []int64{1, 2, int64(n) + 1}
 		if x.Tier == "thorough" {
@@ -433,7 +528,7 @@ func c10Run(x *engine.X) {
 		run := runs[x.Choose(len(runs), "sortrun")]
 		x.Descf("sortrun=%d", run)
 		var buf bytes.Buffer
-		opts := []parquet.WriterOption{parquet.SortingWriterConfig(parquet.SortingColumns(spec.columns()...), parquet.DropDuplicatedRows(dedupe))}
+		opts := []parquet.WriterOption{parquet.SortingWriterConfig(parquet.SortingColumns(spec.columns(st.paths)...), parquet.DropDuplicatedRows(dedupe))}
 		if err := rt.SortingWrite(&buf, rows, cuts, run, opts...); err != nil {
 			x.Failf("write-error", shape, "%v", err)
 			return
@@ -452,7 +547,7 @@ func c10Run(x *engine.X) {
 		}
 		for _, rg := range f.RowGroups() {
 			scs := rg.SortingColumns()
-			want := spec.columns()
+			want := spec.columns(st.paths)
 			ok := len(scs) == len(want)
 			for i := 0; ok && i < len(want); i++ {
 				ok = strings.Join(scs[i].Path(), ".") == strings.Join(want[i].Path(), ".") &&
@@ -470,7 +565,7 @@ func c10Run(x *engine.X) {
 		rowsV[i] = reflect.ValueOf(got[i])
 	}
 	// ordered
-	for i := 1; i < len(rowsV); i++ {
+	for i := 1; i < len(rowsV) && !st.comparatorOnly; i++ {
 		if spec.compare(rowsV[i-1], rowsV[i]) > 0 {
 			x.Failf("not-sorted", shape, "output rows %d and %d out of order: %+v then %+v", i-1, i, got[i-1], got[i])
 			return
